@@ -122,7 +122,13 @@ func init() {
 		form := url.Values{"identity": {st.A}, "pubkey": {base64.RawURLEncoding.EncodeToString(key.pkixDER())},
 			"target_netblock": {"10.0.0.0/8"}}
 		for _, n := range st.L {
+			if strings.HasPrefix(n, "fwd:") || strings.HasPrefix(n, "peer:") || strings.HasPrefix(n, "precookie:") {
+				continue
+			}
 			form.Add("requestor_netblock", n)
+		}
+		if st.D != "" {
+			form.Set("duration", st.D) // the documented optional field
 		}
 		method := "POST"
 		if st.N == 1 {
